@@ -23,7 +23,7 @@ def configs(tier):
              over=dict(base, Kinds=["sock"], NT=1, MaxTick=3, Cmds={"read", "tonce", "tcancel"}, Envs={"send", "tick"},
                        MaxCmds=10, MaxOps=1, HBudget=2)),
         dict(name="one timer: once/repeating/cancel/close/re-schedule life cycle", sample=2 * n,
-             over=dict(base, Kinds=[], NT=1, MaxTick=2, Cmds={"tonce", "trep", "tcancel", "tclose"}, Envs={"tick"},
+             over=dict(base, Kinds=[], NT=1, MaxTick=2, Cmds={"tonce", "trep", "tcancel", "tclose", "tzero"}, Envs={"tick"},
                        MaxCmds=5, HBudget=2)),
         dict(name="two timers: once/cancel/close/re-schedule from each other's callbacks", sample=n,
              over=dict(base, Kinds=[], NT=2, MaxTick=3, Cmds={"tonce", "tcancel", "tclose"}, Envs={"tick"}, MaxCmds=mc)),
